@@ -82,6 +82,13 @@ def gen_cases(rng, n):
             else:
                 ups.append("e%d/%d" % (rng.randrange(20), ln))
         cases.append("SU " + ",".join(ups))
+    # the Unix sinks given a symbolic link that is re-pointed to another listener half way (op m)
+    e1, e2, e3 = "E" + hx(b"one:1|c"), "E" + hx("zw\u00f6lf:12|ms".encode()), "E" + hx(b"three:3|g")
+    for seq in ([e1, "m", e2], [e1, e2, "m", e3, e1], ["m", e1], [e1, "m", "m", e2]):
+        cases.append("XS - q0 " + ",".join(seq))
+    for cap in ("d", "8", "20", "64"):
+        for seq in ([e1, "m", e2, "F"], [e1, e2, "F", "m", e3, "F", e1], [e1, "m", "F", e2], [e1, e2, "m", e3, e3, e3]):
+            cases.append("BXS %s q0 %s" % (cap, ",".join(seq)))
     # a non-blocking Unix socket whose listener does not read: WouldBlock once its queue is full
     for spec in ("u 40 30", "u 120 700", "16 80 10", "64 160 20", "512 400 90"):
         cases.append("XW " + spec)
@@ -100,6 +107,9 @@ def gen_cases(rng, n):
 
 def xw_as_model_case(case, obs):
     t = case.split()
+    if t[0] in ("XS", "BXS"):
+        ops = ",".join(o for o in t[3].split(",") if o != "m")
+        return ("X b q0 " if t[0] == "XS" else "BX %s q0 " % t[1]) + ops
     if t[0] != "XW":
         return case
     if t[1] != "u" or obs.startswith("HARNESS-PANIC"):
@@ -182,6 +192,23 @@ def judge(case, obs):
             if st[1] + st[3] != att:
                 bad.append(("C14", "packets_sent + packets_dropped = %d but %d sends were attempted" % (st[1] + st[3], att)))
         return bad
+    if t[0] in ("XS", "BXS"):
+        parts = dict(x.split(":", 1) for x in obs.split("|"))
+        seen = [int(x) for x in parts["N"].split(",")]
+        ops = t[3].split(",")
+        last_m = max(i for i, o in enumerate(ops) if o == "m")
+        first_m = min(i for i, o in enumerate(ops) if o == "m")
+        at_a = int(parts["P"])
+        before = seen[first_m]          # datagrams sent before the link was re-pointed: they belong to the first listener
+        if at_a != before:
+            bad.append(("C13", "the sink was given a symlink path; %d datagrams were sent before the link was re-pointed but the "
+                        "first listener received %d (datagrams must go to the path given at construction, resolved when sent)"
+                        % (before, at_a)))
+        # everything else as for the plain sink
+        plain = xw_as_model_case(case, obs)
+        ip = parts
+        obs2 = "R:%s|D:%s|S:%s" % (",".join(r for r in ip["R"].split(",") if r != "-"), ip["D"], ip["S"])
+        return bad + judge(plain, obs2)
     if t[0] == "UA":
         if t[1] == "0":
             if obs != "ctor:inv":
@@ -307,6 +334,10 @@ def run_sock_check(prop, tier, seed):
         for i, c in enumerate(cases):
             if c.startswith("XW"):
                 impl[i], model[i] = xw_views(c, impl[i], model[i])
+            elif c.startswith("XS") or c.startswith("BXS"):
+                # which listener got what is judged, not modelled; the `-` of op m is not in the model's results
+                ip = dict(x.split(":", 1) for x in impl[i].split("|"))
+                impl[i] = "R:%s|D:%s|S:%s" % (",".join(r for r in ip["R"].split(",") if r != "-"), ip["D"], ip["S"])
         cimpl = common.run_harness("sock", conc, shards=len(conc))
     except common.CheckFailure as e:
         rep.violation_noinput("correspondence run failed", {"error": str(e)})
@@ -320,6 +351,23 @@ def run_sock_check(prop, tier, seed):
                 impl[i] = o
         rep.cov["rerun_after_disagreement"] = len(dis_idx)
     failures = []
+    # statistics read through a QueuingMetricSink in every queue state (full bounded queue, worker busy, after panics):
+    # scripted histories of the queue check with a sample after every action
+    from . import queue as queue_driver
+    qcases = []
+    for cap in ("0", "1", "2", "u"):
+        for ctor in ("1", "3"):
+            qcases.append("Q %s %s E0,S,E0,S,E0,S,E0,S,Rk,S,Re8,S,Rp,S,E0,S,Rk,S,Rk,S,D0" % (cap, ctor))
+            qcases.append("Q %s %s E0l,S,E0u,S,E0,S,Re3,S,E0,S,Rk,S,Rk,S,Rk,S,D0" % (cap, ctor))
+    try:
+        qimpl = common.run_harness("queue", qcases, shards=min(8, len(qcases)))
+    except common.CheckFailure as e:
+        rep.violation_noinput("correspondence run failed (queue-state statistics)", {"error": str(e)})
+        return rep.finish()
+    for c, o in zip(qcases, qimpl):
+        for pid, msg in queue_driver.judge(c, o):
+            if pid == prop:
+                failures.append((len(c), c, o, msg))
     for c, o in list(zip(cases, raw)) + list(zip(conc, cimpl)):
         for pid, msg in judge(c, o):
             if pid == prop:
@@ -328,7 +376,7 @@ def run_sock_check(prop, tier, seed):
         failures.sort()
         _, c, o, msg = failures[0]
         rep.violation_input("%s (%d failing cases; smallest shown)" % (msg[:300], len(failures)),
-                            {"bin": "sock", "case": c[:2000], "implementation": o[:2000], "clause": msg})
+                            {"bin": "queue" if c.startswith("Q ") else "sock", "case": c[:2000], "implementation": o[:2000], "clause": msg})
     dis = [(len(c), c, i, m) for c, i, m in zip(cases, impl, model) if i != m]
     if dis and not failures:
         dis.sort()
